@@ -22,11 +22,11 @@ Definition flipq (b : bool) (q : Q) : Q := if b then - q else q.
 
 Definition tr_gen (r : Q -> Q) (c : tcfg) (p : Q * Q * Q) : Q * Q * Q :=
   let '(x, y, z) := p in
-  let x1 := r (x - r (t_sx c)) in
-  let y1 := r (y - r (t_sy c)) in
+  let x1 := r (r x - r (t_sx c)) in       (* asarray(float32), then the float32 subtraction *)
+  let y1 := r (r y - r (t_sy c)) in
   let x2 := flipq (t_fx c) x1 in
   let y2 := flipq (t_fy c) y1 in
-  (t_c c * x2 - t_s c * y2, t_s c * x2 + t_c c * y2, t_k c * z).
+  (t_c c * x2 - t_s c * y2, t_s c * x2 + t_c c * y2, t_k c * r z).
 
 Definition tr : tcfg -> Q * Q * Q -> Q * Q * Q := tr_gen (fun q => q).
 Definition tr32 : tcfg -> Q * Q * Q -> Q * Q * Q := tr_gen rnd32.
